@@ -147,7 +147,7 @@ package leader
 //@   on call KeyValue.Create as c assert C05.token_drawn_for_this_attempt: $tokenDrawn && TokenOf(c.value) == $lastDrawn
 //@   on ret KeyValue.Create set $tokenDrawn = false
 //@   on call wg.Add assert C20+C09.wait_group_grows_under_the_mutex_or_on_a_tracked_goroutine: (nheld(kvElection.mu) >= 1 && e.stopsWaiting == 0) || caller.onTrackedGoroutine
-//@   on call kvElection.onDemote assert C08+C09+C11+C13+C03+C06.callbacks_run_outside_the_mutex: nheld(kvElection.mu) == 0
+//@   on call kvElection.onDemote assert C08+C09+C11+C13+C03+C06+C04+C12.callbacks_run_outside_the_mutex: nheld(kvElection.mu) == 0
 //@   on call kvElection.onPromote assert C08+C09+C13+C03+C06.callbacks_run_outside_the_mutex: nheld(kvElection.mu) == 0
 //@   on unlock kvElection.mu assert C18.gauge_follows_claim: $gaugeFresh
 //@   on call recordTransition as c assert C18.transition_chain: c.fromState == $stateAtLock && c.toState == $stateStored && held(c.e.mu) == 2
